@@ -8,6 +8,7 @@ CONSTANTS
   OrderClass = "scc"
   CycleCheck = "pair"
   Pass2Cancel = "fresh"
+  Outermost = "flush"
   PropagateDespiteCycle = TRUE
 SPECIFICATION Spec
 CHECK_DEADLOCK FALSE
